@@ -98,7 +98,8 @@ PROPS = {
                  "of every character class each of the 13 token recognisers distinguishes, for parseProgramData over a merged alphabet and "
                  "for unit detection (well-formedness, length, data extent, parameter count, termination); each string in exact-size buffers "
                  "at two offsets and in a buffer followed by tempting continuation bytes; tokens pre-filled with garbage; every byte value 0..255 at every "
-                 "position of every string up to length 3 (quick) / 4 (thorough) over the same alphabets; long generated tokens",
+                 "position of every string up to length 3 (quick) / 4 (thorough) over the same alphabets; definite-length blocks with announced lengths "
+                 "up to 262144 (complete, one byte short, followed by another parameter); long generated tokens",
         "level_note": "suffix program data is checked one-sidedly against the strict 488.2 syntax (the source documents a relaxed one); an incomplete block at the end of input swallows the rest (documented) and is accepted as such",
         "design_ref": "DESIGN.md section 4, C13",
         "runs": simple("c13"),
@@ -211,7 +212,7 @@ PROPS = {
         "technique": "reference-model comparison: independent prefix reader of the numeric/channel list syntax over all short expression bodies, generator-structure oracle for rapidcheck grammar-generated and mutated lists",
         "level": "all expression bodies up to 6 (quick) / 7 (thorough) characters over {1 2 - . : , ! @ space x} queried at entries 0..4 with "
                  "capacities 0..4, plus grammar-generated lists of up to 8 entries / 5 dimensions and mutations of them queried at entries 0..9 "
-                 "with capacities 0..5 (exact-size value arrays under ASan)",
+                 "with capacities 0..5 (exact-size value arrays under ASan), plus two lists as parameters of one command read in fixed and generated interleavings",
         "level_note": "for ill-formed numeric lists only 'not OK' is asserted (the statement does not choose between NO_MORE and ERROR); "
                       "channel lists are compared three-valued; integer values are compared when the written token is an integer literal",
         "design_ref": "DESIGN.md section 4, C19",
@@ -240,7 +241,7 @@ PROPS = {
         "technique": "model-based stateful testing in the static-heap build: reference queue whose entries carry 'the pushed text or nothing', unique texts per history, exact-size heap under ASan, full-reuse probe after every history",
         "level": "all operation sequences over pushes with texts of every length 0..heap size, text-less pushes, SYST:ERR?, pop+release and clear "
                  "for heap sizes 2..12 and queue capacities 1..4 up to a per-heap length bound (listed in the evidence), plus random histories "
-                 "of up to 1000 operations on heaps of 2..256 bytes",
+                 "of up to 1000 operations on heaps of 2..256 bytes; texts are pushed NUL-terminated, from exact-size unterminated buffers with an explicit length, and with an explicit length shorter than what follows",
         "level_note": "only the USE_MEMORY_ALLOCATION_FREE=0 configuration is built; popped texts are released by the harness with scpiheap_free(..., false) as SCPI_SystemErrorNextQ does; texts are at most 255 characters",
         "design_ref": "DESIGN.md section 4, C20",
         "runs": simple("c20", cfgs=("heap",)),
@@ -284,7 +285,7 @@ PROPS = {
         "engine": "exhaustive enumeration + explicit-state exploration + rapidcheck walks",
         "technique": "reference classification table over all 65536 codes; latch/persistence/service-request rules checked on every transition of the C11 exploration (closure, bounded sequences, rapidcheck walks)",
         "level": "all 65536 error codes against the class table; condition->event latching, persistence of event bits except under the defined "
-                 "clears, and the service-request callback (value = status byte with MSS, called on every MSS rise) on every transition of "
+                 "clears, and the service-request callback (value = status byte with MSS, called on every MSS rise - of the MSS bit as shown and of MSS as defined by the registers) on every transition of "
                  "the state-space closure, all operation sequences up to length 3/4 and random walks",
         "level_note": "extra callbacks while MSS stays 1 are allowed; the -350 substituted on overflow is not checked for a class bit",
         "design_ref": "DESIGN.md section 4, C12",
@@ -353,7 +354,8 @@ PROPS = {
         "engine": "enumeration + rapidcheck",
         "technique": "exhaustive/stratified enumeration and rapidcheck-generated values against an independent reference formatter",
         "level": "every 32-bit value x signed/unsigned x bases 2/8/10/16 (thorough: complete; quick: stratified 2^24), boundary 32/64-bit "
-                 "values x 12 bases x every buffer length 0..70 in exact-size heap buffers under ASan, and random 64-bit values, all compared "
+                 "values x 12 bases x every buffer length 0..70 in exact-size heap buffers under ASan, every value with one to three non-zero digits and "
+                 "every run of the largest digit in bases 10/16/8/2, and random 64-bit values (uniform, near powers, sparse decimals), all compared "
                  "byte for byte (text, return value, NUL placement) with an independent formatter",
         "level_note": "trusts the reference formatter in harness/c14.cpp, ASan red zones and canaries; 64-bit space is sampled, not enumerated",
         "design_ref": "DESIGN.md section 4, C14",
